@@ -54,6 +54,10 @@ PATTERN_MENUS = [
     for name in PATTERNS
 ] + [
     ("max2-and-lower", [("len(X) <= 2", ("max", 2)), ("matches_lower(X)", ("pattern", "lower"))]),
+    # several patterns on one value (intersected for XSD), alone and with different bounds
+    ("two-patterns", [("matches_lower(X)", ("pattern", "lower")), ("matches_counted(X)", ("pattern", "counted"))]),
+    ("two-patterns-max1", [("matches_lower(X)", ("pattern", "lower")), ("matches_counted(X)", ("pattern", "counted")), ("len(X) <= 1", ("max", 1))]),
+    ("two-patterns-max3", [("matches_lower(X)", ("pattern", "lower")), ("matches_counted(X)", ("pattern", "counted")), ("len(X) <= 3", ("max", 3))]),
 ]
 
 TYPES_LEN_ONLY = ["bytearray", "Optional[bytearray]", "List[Item]", "Optional[List[Item]]", "List[str]"]
